@@ -13,6 +13,13 @@ open (metadata of a re-inserted hyperedge, add_node with metadata on an existing
 node, a keep_edges merge into an existing hyperedge, an emptied hyperedge) are
 never issued in an ambiguous form.
 
+Options of a side / content: ``side["rev"]`` hands every metadata dict (also nested ones)
+to the library with reversed key order; content ``wmode == "dyadic"`` makes the weights
+floats k/4 (exact sums; 2.0 and 2 are different weights for the repair phase and the
+premise check); a builder given ``hash_fn`` calls it right before a share of the mutating
+calls (rng of the side); every other remove_node / remove_edge / add_node goes through the
+bulk call with a one-element list; the noise kind "copy" continues on ``h.copy()``.
+
 The concrete calls are executed with the adapters of C01..C04 (history.apply_real).
 """
 
@@ -54,6 +61,16 @@ class Kit:
         if self.name == "TemporalHypergraph":
             return set(key[1])
         return set(key[0])
+
+    def map_key(self, key, f):
+        """the model key with every node label n replaced by f(n)"""
+        if self.name == "Hypergraph":
+            return frozenset(f(n) for n in key)
+        if self.name == "DirectedHypergraph":
+            return (frozenset(f(n) for n in key[0]), frozenset(f(n) for n in key[1]))
+        if self.name == "TemporalHypergraph":
+            return (key[0], frozenset(f(n) for n in key[1]))
+        return (frozenset(f(n) for n in key[0]), key[1])
 
     def shrink(self, key, n):
         """keep_edges=True result for node n (None when nothing is left)."""
@@ -131,6 +148,7 @@ def derive(content):
     ad = k.ad
     U = content["universe"]["labels"]
     weighted = content["weighted"]
+    dyadic = content.get("wmode", "int") == "dyadic"
     edges, order = {}, []
     specs = content["edges"]
     for i, e in enumerate(specs):
@@ -142,7 +160,8 @@ def derive(content):
         key = ad.key_of(rec)
         if key in edges:
             continue
-        edges[key] = [spec["w"] if weighted else 1, dc(e["meta"])]
+        w = DYADIC[(spec["w"] - 1) % len(DYADIC)] if dyadic else spec["w"]
+        edges[key] = [w if weighted else 1, dc(e["meta"])]
         order.append(key)
     nodes = {}
     for key in order:
@@ -155,7 +174,28 @@ def derive(content):
     for i, meta in content["node_meta"]:
         nodes[U[i % len(U)]] = dc(meta)
     return {"type": content["type"], "weighted": weighted, "nodes": nodes, "edges": edges,
-            "order": order, "hg_user": dc(content["hg_meta"])}
+            "order": order, "hg_user": dc(content["hg_meta"]),
+            "wmode": "dyadic" if (dyadic and weighted) else "int"}
+
+
+def relabel(T, f):
+    """The target with every node label n replaced by f(n) (f injective)."""
+    k = kit(T["type"])
+    T2 = dc(T)
+    T2["nodes"] = {f(n): dc(m) for n, m in T["nodes"].items()}
+    T2["edges"] = {k.map_key(key, f): dc(v) for key, v in T["edges"].items()}
+    T2["order"] = [k.map_key(key, f) for key in T["order"]]
+    return T2
+
+
+def rev_keys(v):
+    """The same JSON value with the keys of every dict (also nested in lists) in reversed
+    insertion order."""
+    if isinstance(v, dict):
+        return {f: rev_keys(v[f]) for f in reversed(list(v))}
+    if isinstance(v, list):
+        return [rev_keys(x) for x in v]
+    return v
 
 
 def target_as_content(k, T):
@@ -193,6 +233,9 @@ class Builder:
         self.hash_fn = hash_fn
         self.on_hash = on_hash      # callback(builder) at every "hash" noise op
         self.flags = set()
+        self.dyadic = T.get("wmode", "int") == "dyadic" and T["weighted"]
+        # every dict handed to the library (also nested ones) with its keys in reversed order
+        self.rev = bool(side.get("rev", False))
 
     # ---- model (specified effects only)
     def _m_add_node(self, n, meta):
@@ -240,7 +283,20 @@ class Builder:
     def do(self, c):
         ad, h = self.ad, self.h
         op = c["op"]
+        if (self.hash_fn is not None and op not in ("hash", "copy")
+                and self.rng.random() < (0.5 if op in ATTR_OPS else 0.15)):
+            # the hash is taken right before a call that changes the object (a digest kept on
+            # the object must not survive the change), most often before the calls that edit
+            # one metadata field in place
+            self.hash_fn(h)
+            self.trace.append({"op": "hash", "before": op})
+            self.flags.add("hash_before_attr_edit" if op in ATTR_OPS else "hash_before_mutation")
         self.trace.append(c)
+        real = rev_keys(c) if self.rev else c
+        if op == "copy":
+            self.h = h.copy()
+            self.flags.add("copy")
+            return
         if op == "hash":
             if self.on_hash is not None:
                 self.on_hash(self)
@@ -248,7 +304,7 @@ class Builder:
                 self.hash_fn(h)
             return
         if op == "set_hypergraph_metadata":
-            h.set_hypergraph_metadata(dc(c["meta"]))
+            h.set_hypergraph_metadata(dc(real["meta"]))
             self.hg_known = dc(c["meta"])
             return
         if (op == "remove_node" and getattr(ad, "has_remove_nodes", False)
@@ -256,8 +312,21 @@ class Builder:
             # every other node removal goes through the bulk call remove_nodes([n])
             H.apply_real(ad, h, {"op": "remove_nodes", "ns": [c["n"]], "keep": c["keep"]})
             self.trace[-1] = dict(c, via="remove_nodes")
+        elif (op == "remove_edge" and getattr(ad, "has_remove_edges", False)
+                and len(self.trace) % 2 == 0):
+            # ... and every other hyperedge removal through remove_edges([e])
+            H.apply_real(ad, h, {"op": "remove_edges", "es": [c["e"]]})
+            self.trace[-1] = dict(c, via="remove_edges")
+            self.flags.add("via_remove_edges")
+        elif (op == "add_node" and len(self.trace) % 2 == 0
+                and (c["meta"] is None or getattr(ad, "has_add_nodes_metadata", False))):
+            # ... and every other node addition through add_nodes([n])
+            H.apply_real(ad, h, {"op": "add_nodes", "ns": [c["n"]],
+                                 "metas": None if c["meta"] is None else [real["meta"]]})
+            self.trace[-1] = dict(c, via="add_nodes")
+            self.flags.add("via_add_nodes")
         else:
-            H.apply_real(ad, h, c)
+            H.apply_real(ad, h, real)
         if op == "add_node":
             self._m_add_node(c["n"], c["meta"])
         elif op == "add_edge":
@@ -331,8 +400,9 @@ class Builder:
             node_meta = {n: dc(T["nodes"][n]) for n in ns}
         if flags & 4:
             hg = dc(T["hg_user"])
+        r = rev_keys if self.rev else (lambda v: v)
         self.h = ad.construct(self.weighted, recs, list(ws) if ws is not None else None,
-                              dc(metas), dc(node_meta), dc(hg))
+                              r(dc(metas)), r(dc(node_meta)), r(dc(hg)))
         self.trace.append({"op": "construct", "weighted": self.weighted, "records": recs,
                            "weights": ws, "edge_metadata": metas,
                            "node_metadata": [[n, m] for n, m in (node_meta or {}).items()] or None,
@@ -357,7 +427,8 @@ class Builder:
         spec = expand_noise(spec)
         kind = spec["k"]
         a, b, c = spec["pick"], spec["perm"], spec["c"]
-        w_arg = (spec["w"] if self.weighted else (None if c % 2 else 1))
+        w_noise = spec["w"] * 0.25 if (self.dyadic and b % 2) else spec["w"]
+        w_arg = (w_noise if self.weighted else (None if c % 2 else 1))
 
         def add_edge_rec(rec, meta_new):
             key = ad.key_of(rec)
@@ -424,7 +495,7 @@ class Builder:
                 if ad.has_set_edge_metadata:
                     self.do({"op": kind, "e": rec, "meta": dc(spec["meta"])})
             elif kind == "set_weight":
-                self.do({"op": kind, "e": rec, "w": spec["w"] if self.weighted else 1})
+                self.do({"op": kind, "e": rec, "w": w_noise if self.weighted else 1})
             else:
                 self.do({"op": "remove_edge", "e": rec})
         elif kind == "set_attr_hg":
@@ -436,6 +507,9 @@ class Builder:
                 self.do({"op": "clear"})
         elif kind == "hash":
             self.do({"op": "hash"})
+        elif kind == "copy":
+            if getattr(ad, "has_copy", False):
+                self.do({"op": "copy"})
         else:
             raise AssertionError(kind)
 
@@ -452,8 +526,8 @@ class Builder:
             if key not in T["edges"]:
                 out.append(("drop_edge", key))
             else:
-                if self.edges[key][0] != T["edges"][key][0]:
-                    out.append(("fix_weight", key))
+                if not _same_types(self.edges[key][0], T["edges"][key][0]):
+                    out.append(("fix_weight", key))      # 2 is not 2.0
                 if not _same_types(self.edges[key][1], T["edges"][key][1]):
                     out.append(("fix_edge_meta", key))
         for key in T["order"]:
@@ -509,7 +583,11 @@ class Builder:
                 r = rng.random()
                 if not self.weighted:
                     w_arg = None if rng.random() < 0.5 else 1
-                elif w > 1 and r < 0.4:
+                elif isinstance(w, float) and w > 0.25 and r < 0.4:
+                    # dyadic weights: every partial sum is exact
+                    w_arg = 0.25 * rng.randint(1, int(w / 0.25) - 1)
+                    self.flags.add("partial_weight")
+                elif not isinstance(w, float) and w > 1 and r < 0.4:
                     w_arg = rng.randint(1, w - 1)      # the rest arrives by re-insertion/set_weight
                     self.flags.add("partial_weight")
                 else:
@@ -615,9 +693,19 @@ sel = st.integers(0, 30)
 # [] / {} / None / "" are different JSON values on purpose
 META_POOL = [{}, {"color": "red"}, {"k": 1}, {"k": True}, {"k": 1.0}, {"role": [1, "x y"]},
              {"x": {"p": None}}, {"color": "blue", "k": 0.5}, {"x": None}, {"role": ""},
-             {"k": -3, "x": []}, {"color": "red", "role": "A", "x": 2}]
+             {"k": -3, "x": []}, {"color": "red", "role": "A", "x": 2},
+             # dicts with several keys below the top level (also inside a list)
+             {"x": {"p": 1, "a": [2], "m": None}}, {"role": [{"q": 1, "b": "2"}, 3], "k": 2},
+             # keys and values that need escaping in JSON text, the empty key
+             {'a"b': 1, 'x\\y': 'l\nb'}, {'\u00e9': '', '': '\u00e9', 'k': 'a"b'}]
 VALUE_POOL = [None, True, False, 0, 1, 1.0, 2, "red", "", "A", [1, 2], [], {"p": 1},
-              {"q": None}, 0.5, -1.25]
+              {"q": None}, 0.5, -1.25, {"q": 1, "p": 2, "a": {"z": 0, "y": 1}}, [{"z": 0, "a": 1}],
+              'a"b', 'x\\y', 'l\nb', '\u00e9']
+# node labels that need escaping in JSON text, the empty label
+ESC_LABELS = ['a"b', 'x\\y', 'l\nb', '\u00e9', '', 'B', '10']
+# weights of the dyadic float mode (exact sums and differences; 2.0 is a float, never an int)
+DYADIC = [0.5, 0.25, 1.5, 2.75, 2.0, 0.75, 2.5, 4.0, 1.25]
+ATTR_OPS = ("set_attr_node", "remove_attr_node", "set_attr_edge", "remove_attr_edge")
 
 
 def rich_metadata():
@@ -640,6 +728,8 @@ def expand_edge(e):
     """compact content hyperedge {"ns", "x", "meta"} -> the fields the adapters read
     (one integer instead of five draws keeps generation cheap)"""
     cut, t, layer, w, same, same_as = _digits(e["x"], 8, 7, 4, 9, 4, 31)
+    if t == 6:
+        t = 12      # a two-digit time: "12" < "2" as text, 12 > 2 as a number
     return {"mode": "fresh", "ns": e["ns"], "cut": cut, "t": t, "layer": layer, "w": 1 + w,
             "perm": 0, "pick": 0, "same_as": same_as if same == 0 else None, "meta": e["meta"]}
 
@@ -669,8 +759,13 @@ def contents(draw, type_name=None, max_edges=6, weighted=None):
     return {
         "type": name,
         "weighted": draw(st.booleans()) if weighted is None else weighted,
-        "universe": draw(S.universes(min_size=4, max_size=8,
-                                     kinds=("ints", "strs", "ints", "strs", "range"))),
+        # one in four: str labels that need escaping in JSON text (and the empty label)
+        "universe": (draw(st.fixed_dictionaries({
+            "kind": st.just("strs_esc"),
+            "labels": st.lists(st.sampled_from(ESC_LABELS), min_size=4, max_size=7, unique=True)}))
+            if draw(st.sampled_from([False, False, False, True])) else
+            draw(S.universes(min_size=4, max_size=8,
+                             kinds=("ints", "strs", "ints", "strs", "range")))),
         # (small integer ranges are drawn with a heavy bias to 0: use sampled_from for rates)
         "edges": ([] if draw(st.sampled_from([False] * 11 + [True])) else
                   draw(st.one_of(st.lists(ec, min_size=1, max_size=max_edges),
@@ -678,6 +773,7 @@ def contents(draw, type_name=None, max_edges=6, weighted=None):
         "isolated": draw(st.lists(idx, min_size=draw(st.sampled_from([0, 1, 1, 2])), max_size=2)),
         "node_meta": [list(t) for t in node_meta],
         "hg_meta": draw(rich_metadata()),
+        "wmode": draw(st.sampled_from(["int", "int", "dyadic"])),
     }
 
 
@@ -697,15 +793,20 @@ def noise_op(clear=True, extra_kinds=()):
     })
 
 
-def sides(max_noise=10, clear=True, extra_kinds=(), min_noise=0):
+def sides(max_noise=10, clear=True, extra_kinds=(), min_noise=0, rev=False):
     op = noise_op(clear, extra_kinds)
-    return st.fixed_dictionaries({
+    d = {
         "ctor": st.integers(0, 31),
         "noise": st.one_of(st.lists(op, min_size=min_noise, max_size=max(min_noise, 2)),
                            st.lists(op, min_size=min_noise, max_size=max_noise),
                            st.lists(op, min_size=max(3, min_noise), max_size=max_noise)),
         "seed": st.integers(0, 10**6),
-    })
+    }
+    if rev:
+        # the side hands every metadata dict (also nested ones) to the library with its keys
+        # in reversed order
+        d["rev"] = st.booleans()
+    return st.fixed_dictionaries(d)
 
 
 def history_labels(b, ctx, prefix=""):
